@@ -51,3 +51,22 @@ func TestRef(t *testing.T) {
 		t.Fatalf("% x", w.B)
 	}
 }
+
+func TestMinOctets(t *testing.T) {
+	for _, c := range []struct {
+		v int64
+		n int
+	}{{0, 1}, {127, 1}, {128, 2}, {-128, 1}, {-129, 2}, {255, 2}, {32767, 2}, {32768, 3}, {-32768, 2}, {-32769, 3}, {1 << 31, 5}, {-(1 << 31), 4}, {1<<63 - 1, 8}, {-1 << 63, 8}, {1<<55 - 1, 7}, {1 << 55, 8}} {
+		if g := MinOctetsSigned(c.v); g != c.n {
+			t.Errorf("MinOctetsSigned(%d) = %d, want %d", c.v, g, c.n)
+		}
+	}
+	for _, c := range []struct {
+		v uint64
+		n int
+	}{{0, 1}, {255, 1}, {256, 2}, {65535, 2}, {65536, 3}, {1<<56 - 1, 7}, {1 << 56, 8}, {1<<64 - 1, 8}} {
+		if g := MinOctetsUnsigned(c.v); g != c.n {
+			t.Errorf("MinOctetsUnsigned(%d) = %d, want %d", c.v, g, c.n)
+		}
+	}
+}
